@@ -203,6 +203,8 @@ func runR_C04(c *Ctx) {
 	hashNilVsEmpty(c)
 	g9Methods(c, methodSpec{"hash.hasHashMethod", "Hash", 0, 1, types.Invalid})
 	sortLessRules(c)
+	// map keys are visited in the order of the derived compare function: its rules are part of "Equal values hash alike"
+	compareCoreRules(c)
 	c.Rep.floor("R16", 50)
 }
 
